@@ -1184,6 +1184,20 @@ fn fixed_recipes() -> Vec<Recipe> {
         Terminated(b(FromU8(0)), b(FromRefU8(255))),
         Or(b(Word("".into())), b(Word("abc".into()))),
         ByteFrom(ByteSet(vec![(b'l', b'l'), (b'l', b'l')])),
+        // a component with the empty language after an ambiguous-looking (but dead) prefix
+        Cat(vec![
+            Mark(b(NonEmptyList(b(bf(b"a")))), MarkFn(vec![(ByteSet(vec![(0, 255)]), Some(1))])),
+            bf(b"a"),
+            Union(vec![]),
+        ]),
+        Cat(vec![Union(vec![]), Or(b(bf(b"a")), b(Epsilon))]),
+        Cat(vec![
+            Mark(b(NonEmptyList(b(bf(b"a")))), MarkFn(vec![(ByteSet(vec![(0, 255)]), Some(1))])),
+            bf(b"a"),
+            ByteFrom(ByteSet(vec![])),
+        ]),
+        ByteFrom(ByteSet(vec![])),
+        Neg(b(ByteFrom(ByteSet(vec![])))),
         Neg(b(bf(b"a"))),
         Neg(b(List(b(bf(b"ab"))))),
     ]
